@@ -414,6 +414,38 @@ func (d *drv) random(t int, rnd *rand.Rand, suppress bool) {
 		}
 		return setDef{sel: sel, proto: "none", port: ""}
 	}
+	if rnd.Intn(2) == 0 {
+		// endpoints that inherit the selected label through TWO profiles at once and carry no label of their
+		// own; the IP set is activated after they exist (parent scan strategy), then they are re-addressed /
+		// deleted
+		parents = []string{"p0", "p1"}
+		k, v := keys[rnd.Intn(len(keys))], vals[rnd.Intn(len(vals))]
+		d.updateParent("p0", map[string]string{k: v})
+		d.updateParent("p1", map[string]string{k: v})
+		d.updateEp("w0", epRec{Kind: "wep", Labels: map[string]string{}, Parents: []string{"p0", "p1"}, Nets: []cidr{mustCIDR(addrs[0])}, Ports: portList()})
+		d.updateEp("n0", epRec{Kind: "netset", Labels: map[string]string{}, Parents: []string{"p1", "p0"}, Nets: netList(nets, 3)})
+		// bystanders without that label and without parents: they make scanning the two parents' endpoints
+		// cheaper than scanning all endpoints, which is when the index picks the parent scan strategy
+		for i := 0; i < 4+rnd.Intn(3) && !d.dead; i++ {
+			d.updateEp(fmt.Sprintf("f%d", i), epRec{Kind: "netset", Labels: map[string]string{}, Nets: netList(nets, 1)})
+		}
+		if !d.dead {
+			def := setDef{sel: parseAST(&selgen.N{Op: "eq", K: k, V: v}), proto: "none", port: ""}
+			if rnd.Intn(3) == 0 {
+				def = setDef{sel: parseAST(&selgen.N{Op: "in", K: k, Vs: []string{v, vals[0]}}), proto: "tcp", port: "http"}
+			}
+			d.updateSet(setIDs[0], def)
+		}
+		if !d.dead {
+			d.updateEp("w0", epRec{Kind: "wep", Labels: map[string]string{}, Parents: []string{"p0", "p1"}, Nets: []cidr{mustCIDR(addrs[1])}, Ports: portList()})
+		}
+		if !d.dead && rnd.Intn(2) == 0 {
+			d.deleteEp("w0")
+		}
+		if !d.dead && rnd.Intn(2) == 0 {
+			d.deleteEp("n0")
+		}
+	}
 	steps := 25 + rnd.Intn(45)
 	var last struct {
 		id  string
